@@ -64,6 +64,7 @@ type StrVal struct {
 	known bool
 	s     string
 	sym   *SliceVal // symbolic string viewed as bytes
+	abs   *Term     // abstract byte-string value (Int-sorted bstr term) of a string whose bytes are not tracked
 }
 
 type IfaceVal struct {
